@@ -90,3 +90,19 @@ Proof. exact @reshape_same. Qed.
 Example C11_ex_roll_nd : ndx_roll {| shape := [2; 3]%nat; data := [1; 2; 3; 4; 5; 6]%Z |} [1; -1]%Z (Some [(-1); 0]%Z) 0%Z
   = GetItem.Done {| shape := [2; 3]%nat; data := [6; 4; 5; 3; 1; 2]%Z |}.
 Proof. reflexivity. Qed.
+
+(* broadcasting (broadcast_to / broadcast_arrays, and the operands of every element-wise function and of where): the
+   model's rule is the Array API rule — shapes aligned at the right (lists reversed here), every pair of extents equal or
+   containing a 1, the result takes the other extent; defined exactly on compatible shapes, symmetric, reflexive *)
+From ND Require Import Ndx.BroadcastFacts.
+Theorem C11_broadcast_rule : forall a b c, bshape a b = Some c ->
+  length c = Nat.max (length a) (length b) /\
+  forall i, compat (nth i a 1%nat) (nth i b 1%nat) /\ nth i c 1%nat = bext (nth i a 1%nat) (nth i b 1%nat).
+Proof. exact bshape_spec. Qed.
+Theorem C11_broadcast_defined_on_compatible_shapes : forall a b, (forall i, compat (nth i a 1%nat) (nth i b 1%nat)) -> exists c, bshape a b = Some c.
+Proof. exact bshape_total. Qed.
+Theorem C11_broadcast_symmetric : forall a b, broadcast_shape a b = broadcast_shape b a.
+Proof. exact broadcast_shape_comm. Qed.
+Theorem C11_broadcast_reflexive : forall a, broadcast_shape a a = Some a.
+Proof. exact broadcast_shape_refl. Qed.
+Print Assumptions C11_broadcast_rule.
